@@ -20,7 +20,7 @@ CONSTANTS
  Topics = {"t1"}
  Aliases = {0}
  InPids = {1}
- ExtraPids = {9}
+ ExtraPids = {1, 9}
  Rcs = {0}
  Cleans = {FALSE}
  KAs = {0}
